@@ -284,7 +284,7 @@ impl PathSliceList {
                                 }
                                 None => {
                                     write!(prepend, "({})===true||", sub_s)?;
-                                    write!(s, "}},X({}),{{", sub_s)?;
+                                    write!(s, "}},Q.c({}),{{", sub_s)?;
                                     need_object_assign = true;
                                     next_need_comma_sep = false;
                                 }
